@@ -31,6 +31,10 @@ type C19Work struct {
 	NoPP     bool     `json:"no_pp,omitempty"`
 	WarmCwd  string   `json:"warm_cwd,omitempty"` // an earlier Persist of the same generator state, made from another working directory (SDK host that chdirs between calls)
 	PPYields int      `json:"pp_yields,omitempty"`
+	// OtherFirst: the same Generator served another target language before ("pp" = a backend with its
+	// own post-processor, "plain" = one without): the files of this call are post-processed by this
+	// call's backend, or by nobody if it has no post-processor
+	OtherFirst string `json:"other_first,omitempty"`
 }
 
 type c19Driver struct{}
@@ -112,6 +116,9 @@ func (c19Driver) Gen(seed uint64, tier string) *simrt.Spec {
 		sp.Dirs = append(sp.Dirs, "/w2/deep")
 	}
 	w.PPYields = r.Intn(4)
+	if r.Chance(1, 8) {
+		w.OtherFirst = []string{"pp", "plain"}[r.Intn(2)]
+	}
 	// storage faults
 	if failMode >= 2 && n > 0 {
 		k := r.Intn(3)
@@ -221,6 +228,25 @@ func (b *c19Backend) PostProcess(path string, content []byte) ([]byte, error) {
 	return out, nil
 }
 
+// c19Other: the backend of another target language served by the same Generator before
+type c19Other struct{ plain bool }
+
+func (c19Other) Name() string                              { return "other" }
+func (c19Other) Lang() string                              { return "other" }
+func (c19Other) Options() []plugin.Option                  { return nil }
+func (c19Other) BuiltinPlugins() []*plugin.Desc            { return nil }
+func (c19Other) GetPlugin(desc *plugin.Desc) plugin.Plugin { return nil }
+func (c19Other) Generate(req *plugin.Request, log backend.LogFunc) *plugin.Response {
+	return plugin.NewResponse()
+}
+
+type c19OtherPP struct{ c19Other }
+
+func (c19OtherPP) PostProcess(path string, content []byte) ([]byte, error) {
+	simrt.Hit("pp.by-the-other-backend")
+	return append(append([]byte(nil), content...), []byte("//pp-of-the-other-language:"+path+"\n")...), nil
+}
+
 // hide PostProcess: a backend that is not a PostProcessor
 type c19Plain struct{ b *c19Backend }
 
@@ -293,6 +319,14 @@ func (c19Driver) Run(spec *simrt.Spec, agg *Agg, keep bool) *Outcome {
 		}
 		_ = g.RegisterBackend(b)
 		lf := backend.DummyLogFunc()
+		if work.OtherFirst != "" {
+			var ob backend.Backend = c19Other{}
+			if work.OtherFirst == "pp" {
+				ob = c19OtherPP{}
+			}
+			_ = g.RegisterBackend(ob)
+			_ = g.Generate(&generator.Arguments{Out: &generator.LangSpec{Language: "other"}, Req: &plugin.Request{Language: "other"}, Log: lf})
+		}
 		gres := g.Generate(&generator.Arguments{
 			Out: &generator.LangSpec{Language: "sim"},
 			Req: &plugin.Request{Language: "sim"},
